@@ -432,6 +432,11 @@ def check_sync(c, f):
                 witness=('no emptiness test on %s guards this return' % sorted(names)) if not edges else 'path: ' + g.describe_path(p), tag='nonempty-response')
         # and only under the similarity test
         sim = [t for t in g.nodes if t.kind == 'test' and any(isinstance(x, ast.Name) and x.id == ld[0].ast.targets[0].id for x in ast.walk(t.ast))]
+        # (equality of the two compared responses is similarity too: `if a == b: return True` as a fast path)
+        for t in g.nodes:
+            if t.kind == 'test' and compare_parts(t.ast) is not None and isinstance(compare_parts(t.ast)[1], ast.Eq) \
+                    and sorted([norm(compare_parts(t.ast)[0]), norm(compare_parts(t.ast)[2])]) == sorted(cmp_args):
+                sim.append(t)
         ok = any(r in guard_region(g, t, 'true') for t in sim)
         c.check(ok, f, r.ast, 'success depends on the similarity of the two responses', tag='similar')
     rf = [r for r in returns(f) if is_const(r.ast.value, False)]
